@@ -60,6 +60,10 @@ type mAttr struct {
 	exprTok []tok // expOrig / expTokens: the expression's tokens
 	unit    []tok // whole item incl. comments while never touched, else nil
 	nvars   int   // number of variable references (-1: unknown)
+	// handle is the *hclwrite.Attribute first seen for this attribute: edits
+	// are documented to modify attributes in place, so it must stay the object
+	// that GetAttribute returns for as long as the attribute exists in this tree
+	handle *hclwrite.Attribute
 }
 
 type mBlock struct {
@@ -557,6 +561,13 @@ func (s *sim) checkAccessors(tb *hclwrite.Body, mb *mBody, path string) {
 		if ga == nil || ga != attrs[a.name] {
 			fail("accessor_mismatch", "%s: GetAttribute(%q) disagrees with Attributes()", path, a.name)
 		}
+		if path != "<reloaded>" && !strings.HasPrefix(path, "<reloaded>") {
+			if a.handle == nil {
+				a.handle = ga
+			} else if a.handle != ga {
+				fail("accessor_mismatch", "%s: attribute %q is no longer the object it was (a handle obtained earlier is stale although the attribute was only edited in place)", path, a.name)
+			}
+		}
 		if a.nvars >= 0 {
 			var n int
 			s.call("Expr.Variables", func() { n = len(ga.Expr().Variables()) })
@@ -941,6 +952,11 @@ func refreeze(mb *mBody, ab *aBody) {
 // recount: after a reload every expression has been parsed, so Variables()
 // reports what the parser finds in it, whatever the expression was set from.
 func recount(mb *mBody, ab *aBody) {
+	for _, it := range mb.items {
+		if it.attr != nil {
+			it.attr.handle = nil // a reloaded tree has new objects
+		}
+	}
 	for i, it := range mb.items {
 		if i >= len(ab.items) {
 			return
